@@ -141,6 +141,11 @@ pub fn refresh_share<C: Ciphersuite>(
         .chain(refreshing_share.commitment.0.clone())
         .collect();
 
+    // Compare the real length: the threshold derived from the commitment below is truncated to u16
+    if refreshing_share_commitments.len() != current_key_package.min_signers as usize {
+        return Err(Error::InvalidMinSigners);
+    }
+
     refreshing_share.commitment =
         VerifiableSecretSharingCommitment::<C>::new(refreshing_share_commitments);
 
